@@ -16,6 +16,7 @@ import (
 	"sync"
 	"sync/atomic"
 	"testing"
+	"time"
 
 	ev "verif/engine/evidence"
 )
@@ -122,6 +123,9 @@ func TestC09(t *testing.T) {
 		return
 	}
 
+	phases := map[string]float64{}
+	t0 := time.Now()
+	lap := func(name string) { phases[name] = time.Since(t0).Seconds(); t0 = time.Now() }
 	// ================= part (a): helpers =================
 	var aEvals, aMid, aBase atomic.Int64
 	aOutcomes := map[string]int64{}
@@ -157,6 +161,7 @@ func TestC09(t *testing.T) {
 		amu.Unlock()
 	})
 	fEvals, fOutcomes := fileLimitCases(viol)
+	lap("part_a")
 
 	// ================= part (b): filesystem entry points =================
 	// the list of entry points comes from the interface type: every context-accepting method must have been run
@@ -256,6 +261,7 @@ func TestC09(t *testing.T) {
 		}
 	})
 
+	lap("part_b_reference_and_done_at_call")
 	// mid-run: the context ends right after backend operation k
 	type mjob struct {
 		c    *combo
@@ -346,7 +352,9 @@ func TestC09(t *testing.T) {
 		}
 	})
 
+	lap("part_b_mid_run")
 	// ================= evidence =================
+	rep.Coverage["phase_wall_s"] = phases
 	perEntry := map[string]any{}
 	for name, st := range stats {
 		sc := byName[name]
